@@ -15,7 +15,7 @@ theorem list_snoc_induction {α : Type _} {P : List α → Prop} (hnil : P [])
   have h : ∀ r : List α, P r.reverse := by
     intro r
     induction r with
-    | nil => simpa using hnil
+    | nil => exact hnil
     | cons x r ih => simpa using hsnoc _ x ih
   simpa using h l.reverse
 
@@ -23,16 +23,16 @@ theorem list_snoc_induction {α : Type _} {P : List α → Prop} (hnil : P [])
 section dedup
 variable {α : Type _} {κ : Type _} [DecidableEq κ] (key : α → κ)
 
-theorem mem_dedupBy {y : α} {xs : List α} (h : y ∈ dedupBy key xs) : y ∈ xs := by
+theorem dedupBy_subset {y : α} {xs : List α} (h : y ∈ dedupBy key xs) : y ∈ xs := by
   induction xs with
-  | nil => simpa [dedupBy] using h
+  | nil => simp [dedupBy] at h
   | cons x xs ih =>
     simp only [dedupBy, List.mem_cons, List.mem_filter] at h ⊢
     rcases h with rfl | ⟨h, _⟩
     · exact Or.inl rfl
     · exact Or.inr (ih h)
 
-theorem dedupBy_keys_nodup (xs : List α) : ((dedupBy key xs).map key).Nodup := by
+theorem dedupBy_nodup_keys (xs : List α) : ((dedupBy key xs).map key).Nodup := by
   induction xs with
   | nil => simp [dedupBy]
   | cons x xs ih =>
@@ -42,7 +42,7 @@ theorem dedupBy_keys_nodup (xs : List α) : ((dedupBy key xs).map key).Nodup := 
       simp [hk] at hy
     · exact ih.sublist (List.Sublist.map _ List.filter_sublist)
 
-theorem exists_mem_dedupBy {x : α} {xs : List α} (h : x ∈ xs) :
+theorem dedupBy_exists_key {x : α} {xs : List α} (h : x ∈ xs) :
     ∃ y ∈ dedupBy key xs, key y = key x := by
   induction xs with
   | nil => cases h
@@ -56,10 +56,10 @@ theorem exists_mem_dedupBy {x : α} {xs : List α} (h : x ∈ xs) :
         simp only [dedupBy, List.mem_cons, List.mem_filter]
         exact Or.inr ⟨hy, by simpa using hya⟩
 
-theorem mem_dedupBy_of_coherent {x : α} {xs : List α} (hc : CoherentBy key xs) (h : x ∈ xs) :
+theorem dedupBy_mem_of_coherent {x : α} {xs : List α} (hc : CoherentBy key xs) (h : x ∈ xs) :
     x ∈ dedupBy key xs := by
-  rcases exists_mem_dedupBy key h with ⟨y, hy, hk⟩
-  have : y = x := hc y (mem_dedupBy key hy) x h hk
+  rcases dedupBy_exists_key key h with ⟨y, hy, hk⟩
+  have : y = x := hc y (dedupBy_subset key hy) x h hk
   exact this ▸ hy
 
 theorem dedupBy_eq_self_of_nodup {xs : List α} (h : (xs.map key).Nodup) : dedupBy key xs = xs := by
@@ -82,7 +82,7 @@ theorem dedupBy_snoc (l : List α) (x : α) :
     · simp [h1]
     · by_cases h2 : key x = key a
       · have h1' : ¬ key a ∈ l.map key := h2 ▸ h1
-        simp only [h2, h1', if_false, false_or, List.filter_append]
+        simp only [h2, h1', if_false, List.filter_append]
         simp [h2]
       · simp [h1, h2]
 
@@ -90,6 +90,7 @@ theorem dedupBy_snoc (l : List α) (x : α) :
 def ReqBefore {α : Type _} {κ : Type _} (key : α → κ) (req : α → Option κ) (L : List α) : Prop :=
   ∀ l1 y l2 k, L = l1 ++ y :: l2 → req y = some k → ∃ p ∈ l1, key p = k
 
+omit [DecidableEq κ] in
 theorem reqBefore_prefix {req : α → Option κ} {l r : List α} (h : ReqBefore key req (l ++ r)) :
     ReqBefore key req l := by
   intro l1 y l2 k hl hr
@@ -116,7 +117,7 @@ theorem reqBefore_dedupBy {req : α → Option κ} (L : List α) (h : ReqBefore 
         simp only [List.nil_append, List.cons.injEq] at h2
         rcases h2 with ⟨rfl, _⟩
         rcases h l x [] k rfl hr with ⟨p, hp, hk⟩
-        rcases exists_mem_dedupBy key hp with ⟨p', hp', hk'⟩
+        rcases dedupBy_exists_key key hp with ⟨p', hp', hk'⟩
         exact ⟨p', by simp [h1, hp'], hk'.trans hk⟩
       · -- dedupBy l = l1 ++ c', y :: l2 = c' ++ [x]
         cases c' with
@@ -124,7 +125,7 @@ theorem reqBefore_dedupBy {req : α → Option κ} (L : List α) (h : ReqBefore 
           simp only [List.nil_append, List.cons.injEq] at h2
           rcases h2 with ⟨rfl, _⟩
           rcases h l y [] k rfl hr with ⟨p, hp, hk⟩
-          rcases exists_mem_dedupBy key hp with ⟨p', hp', hk'⟩
+          rcases dedupBy_exists_key key hp with ⟨p', hp', hk'⟩
           exact ⟨p', by simpa [h1] using hp', hk'.trans hk⟩
         | cons b bs =>
           simp only [List.cons_append, List.cons.injEq] at h2
@@ -178,6 +179,7 @@ theorem items_some_dictOf {fs : List Feature} (h : (fs.map (·.key)).Nodup) :
 section find
 variable {β : Type _} {κ : Type _} {γ : Type _} [BEq κ] [LawfulBEq κ]
 
+omit [LawfulBEq κ] in
 theorem find_nil (k : κ) : find ([] : Store κ γ) k = none := rfl
 
 theorem find_map_none (key : β → κ) (g : β → γ) (xs : List β) (k : κ) (h : k ∉ xs.map key) :
@@ -197,7 +199,7 @@ theorem find_map_of_nodup (key : β → κ) (g : β → γ) (xs : List β) (hnd 
   | cons a xs ih =>
     simp only [List.map_cons, List.nodup_cons] at hnd
     rcases List.mem_cons.1 hx with rfl | hx
-    · simp [find, List.lookup_cons]
+    · simp [find]
     · have hk : (key x == key a) = false := by
         have : key x ≠ key a := by
           intro e; exact hnd.1 (e ▸ List.mem_map.2 ⟨x, hx, rfl⟩)
@@ -209,7 +211,7 @@ theorem find_map_of_nodup (key : β → κ) (g : β → γ) (xs : List β) (hnd 
 theorem find_dedup_store [DecidableEq κ] (key : β → κ) (g : β → γ) (L : List β) (hc : CoherentBy key L)
     {x : β} (hx : x ∈ L) :
     find ((dedupBy key L).map fun y => (key y, g y)) (key x) = some (g x) :=
-  find_map_of_nodup key g _ (dedupBy_keys_nodup key L) (mem_dedupBy_of_coherent key hc hx)
+  find_map_of_nodup key g _ (dedupBy_nodup_keys key L) (dedupBy_mem_of_coherent key hc hx)
 
 end find
 
@@ -338,7 +340,7 @@ theorem find_zipIdx (tids : List Tag) (t : Tag) (ht : t ∈ tids) : ∀ k,
     intro k
     by_cases hat : a = t
     · subst hat
-      simp [find, List.zipIdx_cons, List.lookup_cons]
+      simp [find, List.zipIdx_cons]
     · have hbeq : (a == t) = false := by simpa using hat
       have hne : (k + List.idxOf t (a :: tids) == k) = false := by
         simp [List.idxOf_cons, hbeq]
